@@ -18,6 +18,9 @@ TASK_FIELDS = ["fn", "args", "kwargs", "iteration_index", "_generator", "_frame"
                "creator", "running", "_id"]
 
 
+_late = []
+
+
 def register(reg, repo):
     reg.elem_types[("AsyncTask", "_dependencies")] = "FutureBase"
     reg.field_types[("AsyncTask", "_contexts")] = "OrderedDict"
@@ -233,6 +236,7 @@ def register(reg, repo):
     reg.pyfuncs["first_err"] = lambda env, v: FE(v)
 
     STEP = "callcount('env.gen.send') + callcount('env.gen.throw')"
+    _late.append(register_unwrap)
     reg.add(C(T + "_continue_on_generator", modifies="*",
               requires=["not computed(self)", "self.running == False", "error is None or wellformed_exc(error)"],
               calls={"self._generator.send": "env.gen.send", "self._generator.throw": "env.gen.throw",
@@ -282,3 +286,102 @@ def register(reg, repo):
                                                   "implies(error is not None, value is None)"],
                   "self._queue_exit": ["not computed(self)"],
               }, ("post", 0): "returns-only-when-done-or-waiting"}))
+
+    for f in _late:
+        f(reg, repo)
+    del _late[:]
+
+
+def register_unwrap(reg, repo):
+    """Body contract of unwrap: one-level unfolding of the relation R_unwrap ('r is v with every future replaced by
+    its value, same shape').  R_unwrap is a relation symbol closed under the introduction rules R_intro() (its
+    definition); recursive calls use this same contract, so every level is checked against one unfolding."""
+    import z3
+    from pyvc import smt
+    from pyvc.smt import V, NONE, NONE_MARK
+    from pyvc.state import fresh_name
+    from pyvc.contract import Contract as C
+    RU = z3.Function("R_unwrap", V, V, z3.BoolSort())
+
+    def r_intro(env):
+        h = env.heap
+        eng = env.eng
+        v, r = z3.Const(fresh_name("v!ri"), V), z3.Const(fresh_name("r!ri"), V)
+        i = z3.Int(fresh_name("i!ri"))
+        isf = eng.isinstance_f(v, [eng.ct.cls("FutureBase")])
+        tup = lambda x: smt.typeof(x) == eng.ct.cls("tuple")
+        lst = lambda x: smt.typeof(x) == eng.ct.cls("list")
+        dct = lambda x: smt.typeof(x) == eng.ct.cls("dict")
+        ll = lambda x: h.sel("$llen", x)
+        li = lambda x, k: z3.Select(h.sel("$litem", x), k)
+        ol = lambda x: h.sel("$olen", x)
+        ok = lambda x, k: z3.Select(h.sel("$okey", x), k)
+        ov = lambda x, k: z3.Select(h.sel("$oval", x), k)
+        rules = [
+            z3.ForAll([v, r], z3.Implies(z3.And(v == NONE, r == NONE), RU(v, r)), patterns=[RU(v, r)]),
+            z3.ForAll([v, r], z3.Implies(z3.And(isf, h.sel("_value", v) != NONE_MARK, h.sel("_error", v) == NONE, r == h.sel("_value", v)),
+                                         RU(v, r)), patterns=[RU(v, r)]),
+            z3.ForAll([v, r], z3.Implies(z3.And(tup(v), tup(r), smt.tlen(v) == smt.tlen(r),
+                                                z3.ForAll([i], z3.Implies(z3.And(0 <= i, i < smt.tlen(v)), RU(smt.titem(v, i), smt.titem(r, i))))),
+                                         RU(v, r)), patterns=[RU(v, r)]),
+            z3.ForAll([v, r], z3.Implies(z3.And(lst(v), lst(r), ll(v) == ll(r),
+                                                z3.ForAll([i], z3.Implies(z3.And(0 <= i, i < ll(v)), RU(li(v, i), li(r, i))))),
+                                         RU(v, r)), patterns=[RU(v, r)]),
+            z3.ForAll([v, r], z3.Implies(z3.And(dct(v), dct(r), ol(v) == ol(r),
+                                                z3.ForAll([i], z3.Implies(z3.And(0 <= i, i < ol(v)),
+                                                                          z3.And(ok(v, i) == ok(r, i), RU(ov(v, i), ov(r, i)))))),
+                                         RU(v, r)), patterns=[RU(v, r)]),
+        ]
+        return z3.And(*rules)
+    reg.pyfuncs["R_intro"] = r_intro
+
+    # the caller-facing contract (effect-free when every leaf is computed) keeps its old name for _continue
+    eff = reg.contracts.pop("async_task.unwrap")
+    eff.name = "async_task.unwrap!effectfree"
+    reg.contracts[eff.name] = eff
+    reg.contracts["async_task.AsyncTask._continue"].calls["unwrap"] = eff.name
+
+    CONT = "exact(value, tuple) or exact(value, list) or exact(value, dict)"
+    reg.add(C("async_task.unwrap", modifies="*",
+              assumes=["implies(exact(value, dict), all(all(implies(i < j, okey(value, i) is not okey(value, j)) for i in range(0, j)) "
+                       "for j in range(0, olen(value))))"],
+              types={"tpl": "tuple", "lst": "list", "dct": "dict", "future": "FutureBase", "result": "list"},
+              labels={"site_assumes": {"future.value": ["not in_window(future)", "computed(future) or not isinstance(future, AsyncTask) or future.running == False"]},
+                      # R_unwrap is DEFINED as the least relation closed under R_intro() in every heap; the body proves
+                      # R_intro(exit heap) => R_unwrap(value, retval), hence callers may use the fact itself
+                      "caller_post": ["R_unwrap(value, retval)"],
+                      # E: the yielded list / dict is not mutated by unknown code while its members are being unwrapped
+                      "site_assumes_after": {"unwrap": [
+                          "implies(exact(value, list), len(value) == old(len(value)) and all(value[i] is old(value[i]) for i in range(0, len(value))))",
+                          "implies(exact(value, dict), olen(value) == old(olen(value)) and "
+                          "all(okey(value, i) is old(okey(value, i)) and oval(value, i) is old(oval(value, i)) for i in range(0, olen(value))))"]},
+                      "loop_mutates": {1: ["result"], 2: ["_c2"], 3: ["_c3"]},
+                      ("post", 0): "relation-holds", ("post", 1): "none-stays-none", ("post", 2): "future-replaced-by-its-value",
+                      ("post", 3): "tuple-same-shape", ("post", 4): "list-same-shape", ("post", 5): "dict-same-keys-same-order",
+                      ("xpost", 0): "future-raises-its-own-error-object", ("xpost", 1): "non-future-is-TypeError"},
+              post=["implies(R_intro(), R_unwrap(value, retval))",
+                    "implies(value is None, retval is None)",
+                    "implies(isinstance(value, FutureBase), computed(value) and value._error is None and retval is value._value)",
+                    "implies(exact(value, tuple), exact(retval, tuple) and tlen(retval) == tlen(value) and "
+                    "all(R_unwrap(titem(value, i), titem(retval, i)) for i in range(0, tlen(value))))",
+                    "implies(exact(value, list), exact(retval, list) and len(retval) == len(value) and "
+                    "all(R_unwrap(value[i], retval[i]) for i in range(0, len(value))))",
+                    "implies(exact(value, dict), exact(retval, dict) and olen(retval) == olen(value) and "
+                    "all(okey(retval, i) is okey(value, i) and R_unwrap(oval(value, i), oval(retval, i)) for i in range(0, olen(value))))"],
+              xpost=["implies(isinstance(value, FutureBase) and old(computed(value)), exc is old(value._error) and old(value._error) is not None)",
+                     "implies(value is not None and not isinstance(value, FutureBase) and not (" + CONT + "), isinstance(exc, TypeError))",
+                     "value is not None"],
+              invariants={
+                  1: ["exact(result, list)", "fresh(result)", "_it1 is tpl", "len(result) == int(_i1)", "int(_i1) <= tlen(tpl)",
+                      "all(R_unwrap(titem(tpl, i), result[i]) for i in range(0, int(_i1)))", "inv()", "two_state('old')"],
+                  2: ["exact(_c2, list)", "fresh(_c2)", "_it2 is lst", "len(_c2) == int(_i2)", "int(_i2) <= len(lst)",
+                      "len(lst) == old(len(lst))", "all(lst[i] is old(lst[i]) for i in range(0, len(lst)))",
+                      "all(R_unwrap(lst[i], _c2[i]) for i in range(0, int(_i2)))", "inv()", "two_state('old')"],
+                  3: ["exact(_c3, dict)", "fresh(_c3)", "_it3 is dct", "olen(_c3) == int(_i3)", "int(_i3) <= olen(dct)",
+                      "olen(dct) == old(olen(dct))",
+                      "all(okey(dct, i) is old(okey(dct, i)) and oval(dct, i) is old(oval(dct, i)) for i in range(0, olen(dct)))",
+                      "all(okey(_c3, i) is okey(dct, i) and R_unwrap(oval(dct, i), oval(_c3, i)) for i in range(0, int(_i3)))",
+                      "all(dhas(_c3, k) == any(okey(dct, i) is k for i in range(0, int(_i3))) for k in vals())",
+                      "inv()", "two_state('old')"]},
+              note="E: a yielded list/dict is not mutated while it is being unwrapped (loop invariants 2/3 state it; unknown code running "
+                   "inside future.value() could in principle mutate it: listed assumption via the invariants' frame clauses)"))
